@@ -710,9 +710,12 @@ impl ShardSplitter {
     async fn write_chunk_to_path(&self, path: &str, batch: RecordBatch) -> Result<()> {
         let mut buffer = Vec::new();
         {
-            let props = WriterProperties::builder()
-                .set_compression(Compression::ZSTD(ZstdLevel::try_new(3)?))
-                .build();
+            let props = crate::ingester::exact_float_encoding(
+                WriterProperties::builder()
+                    .set_compression(Compression::ZSTD(ZstdLevel::try_new(3)?)),
+                &batch.schema(),
+            )
+            .build();
 
             let mut writer = ArrowWriter::try_new(&mut buffer, batch.schema(), Some(props))?;
             writer.write(&batch)?;
